@@ -18,7 +18,14 @@ def stats_canon(stats):
         if hasattr(x, "item"):
             return fix(x.item())
         return x
-    return fix(stats.to_dict())
+    d = fix(stats.to_dict())
+    # derived figures a user reads off the same object (exact: repr of the float)
+    for name, kw in (("adjusted_latency", {}), ("adjusted_latency_raw", {"divide_by_completion_rate": False})):
+        try:
+            d[name] = repr(stats.adjusted_latency(**kw))
+        except Exception as e:  # noqa: BLE001
+            d[name] = "raised " + type(e).__name__
+    return d
 
 
 def run_digest(scn, ids, internal=False):
@@ -179,7 +186,18 @@ def digests_for(seed, n, tier="quick"):
     out = []
     for i in range(n):
         r = sub_rng(seed, "C07", "repro", i)
-        if i % 2:
+        if i % 3 == 2:
+            # all three classes arrive and complete, at a tick rate that makes latencies generic decimals: any figure
+            # accumulated in hash order differs in its last bits
+            scn = sysgen.gen_generated(r, r.choice(["naive", "priority", "priority", "overbook"]), tier)
+            ti, tq, tb = r.choice([(0.3, 0.1, 0.6), (0.33, 0.33, 0.34), (0.25, 0.25, 0.5), (0.15, 0.35, 0.5)])
+            scn["cfg"].update(tps=r.choice([10, 100, 3, 7]), waiting_seconds_mean=r.choice([0.3, 0.7, 1.1]), num_pipelines=4,
+                              num_operators=r.choice([1, 2]), cpus=64, ram=1000, pools=r.choice([2, 3]),
+                              interactive_prob=ti, query_prob=tq, batch_prob=tb, cpu_io_ratio=0.5)
+            scn["cfg"]["duration"] = float(r.randint(40, 120))
+            scn["cfg"]["over"] = scn["cfg"]["algo"] == "overbook"
+            scn["u2"] = r.randint(1, 10 ** 9)
+        elif i % 2:
             # retried and fresh operators of one pipeline waiting together: any hash-ordered choice among them shows
             scn = sysgen.gen(r, r.choice(["priority", "priority", "overbook", "naive"]), "C17", tier)
             scn["cfg"]["multi"] = False
